@@ -317,6 +317,21 @@ def bounded_sequences(tier, seed):
         check('($s, $s)', s + s, s=s)
         check('for $x in $s return ($x, $x)', [y for x in s for y in (x, x)], s=s)
         check('$s ! (., 0)', [y for x in s for y in (x, 0)], s=s)
+        # the inner focus of E1 ! E2: item, position and size come from E1, whatever the focus outside is
+        check('$s ! last()', [len(s)] * len(s), s=s)
+        check('$s ! position()', list(range(1, len(s) + 1)), s=s)
+        check('$s ! (position() = last())', [k == len(s) for k in range(1, len(s) + 1)], s=s)
+        check('(7, 8) ! ($s ! last())', [len(s)] * (2 * len(s)), s=s)
+        check('(7, 8)[1] ! ($s ! (position(), last()))', [y for k in range(1, len(s) + 1) for y in (k, len(s))], s=s)
+        check('$s ! (., 0)[last()]', [0] * len(s), s=s)
+        check('for $x in $s return last()', [1] * len(s), s=s)
+        # range variables are local to the expression that binds them
+        check('for $x in (1, 2) return ((for $x in $s return $x), $x)', [y for o in (1, 2) for y in s + [o]], s=s)
+        check('let $x := 0 return ((for $x in $s return $x), $x)', s + [0], s=s)
+        check('for $x in (1, 2) return ((some $x in $s satisfies $x instance of xs:string), $x)', [y for o in (1, 2) for y in (any(isinstance(v, str) for v in s), o)], s=s)
+        check('for $x in (1, 2) return ((every $x in $s satisfies $x instance of xs:string), $x)', [y for o in (1, 2) for y in (all(isinstance(v, str) for v in s), o)], s=s)
+        check('for $x in (1, 2), $y in ($x, 5) return ((for $y in $s return $y), $x, $y)', [y for o in (1, 2) for i in (o, 5) for y in s + [o, i]], s=s)
+        check('let $x := 1 return ((let $x := $s return count($x)), $x)', [len(s), 1], s=s)
         check('for $x in $s, $y in $s return ($x, $y)', [z for x in s for y in s for z in (x, y)], s=s)
         check('$s[position() = last()]', s[-1:], s=s)
         check('$s[position() lt 3]', s[:2], s=s)
